@@ -340,3 +340,89 @@ def c13i(ctx):
     for o in sub.obs:
         (ctx.ok if o.status == 'ok' else ctx.bad)('%s:%s' % (o.rule, o.construct), o.msg, o.where)
     ctx.stats['functions'] |= sub.stats['functions']
+
+
+@rule('C13.j', floor=2)
+def c13j(ctx):
+    """the rule in force is the one of the task at hand: while a seed or clean-up task runs, its time (`_expire_timestamp`, set by
+    the tools for their own run) decides -- the refresh_before option of the cache, which rules the serving side, is consulted only when
+    no task time is set.  (With the cache option first, a clean-up `remove_before: 30 days` over a cache with `refresh_before: 1 hour`
+    removes everything older than an hour, and a seed's refresh_before is ignored.)"""
+    fn = ctx.fn(TILE + ':TileManager.expire_timestamp')
+    g = fn.cfg
+    rets = g.find_stmts(lambda s: isinstance(s, ast.Return))
+    conf = [n for n in rets if g.stmt[n].value is not None and contains(fn.canon.expr(g.stmt[n].value), lambda x: is_call(x, 'before_timestamp_from_options'))]
+    task = [n for n in rets if g.stmt[n].value is not None and unparse(fn.canon.expr(g.stmt[n].value)) == 'self._expire_timestamp']
+
+    def unset(at):
+        return at.op == '==' and {unparse(at.left), unparse(at.right)} == {'self._expire_timestamp', 'None'}
+    ok = bool(conf) and all(g.guarded(n, unset, True) for n in conf)
+    ctx.check(ok, 'TileManager.expire_timestamp:task-time-first', 'the refresh_before option of the cache is evaluated only when no task time is set', fn,
+              fail='TileManager.expire_timestamp prefers the refresh_before option of the cache to the time of the running seed / clean-up '
+                   'task: the task removes or refreshes by the wrong threshold')
+    ok = bool(task) or all(g.guarded(n, unset, True) for n in rets)
+    ctx.check(ok, 'TileManager.expire_timestamp:task-time-returned', 'a task time that is set is the answer', fn)
+
+
+@rule('C13.k', floor=1)
+def c13k(ctx):
+    """the threshold is the moment that was written down: a time with a zone (YAML `2009-06-09T10:57:00Z`) is converted as that
+    moment; only a time without a zone is read as local time of the server (mktime of its fields)"""
+    fn = ctx.fn('mapproxy/util/times.py:timestamp_from_isodate')
+    g = fn.cfg
+    mk = g.find(lambda x: is_call(x, 'mktime', 'time.mktime') and x.args and contains(x.args[0], lambda y: is_call(y, 'timetuple')))
+    if not mk:
+        ctx.ok('timestamp_from_isodate:zone-honoured', 'no wall-clock conversion', fn)
+        return
+    ok = all(g.guarded(n, lambda at: at.op == '==' and 'tzinfo' in at.text and 'None' in at.text, True) for n, x in mk)
+    ctx.check(ok, 'timestamp_from_isodate:zone-honoured', 'mktime(timetuple()) is only used for times without a zone', fn,
+              fail='timestamp_from_isodate reads the wall-clock fields of a time with a zone as local time: the threshold is off by the UTC '
+                   'offset of the server')
+
+
+@rule('C13.l', floor=1)
+def c13l(ctx):
+    """the age a backend reports is the age of the tile: the redis cache has no modification time and derives it from the key's
+    remaining time to live -- written = now - ttl + remaining (the key expires ttl seconds after it was written)"""
+    fn = ctx.fn('mapproxy/cache/redis.py:RedisCache.load_tile_metadata')
+    asg = [s for s in fn.walk() if isinstance(s, ast.Assign) and unparse(s.targets[0]) == 'tile.timestamp']
+    if not asg:
+        raise Undecided('RedisCache.load_tile_metadata: tile.timestamp is not assigned')
+    ok = True
+    for s in asg:
+        # sign of each additive term of the closed form
+        terms = []
+
+        def walk(e, sign):
+            if isinstance(e, ast.BinOp) and isinstance(e.op, (ast.Add, ast.Sub)):
+                walk(e.left, sign)
+                walk(e.right, sign if isinstance(e.op, ast.Add) else -sign)
+            else:
+                terms.append((sign, e))
+        walk(fn.canon.expr(s.value), 1)
+        ttl = [sg for sg, e in terms if unparse(e) == 'self.ttl']
+        now = [sg for sg, e in terms if contains(e, lambda y: is_call(y, 'mktime', 'time.mktime', 'time.time', 'time', 'now'))]
+        # the remaining time to live: the term that is neither the clock nor the configured ttl (read from the server)
+        rem = [sg for sg, e in terms if unparse(e) != 'self.ttl' and not contains(e, lambda y: is_call(y, 'mktime', 'time.mktime', 'time.time', 'time', 'now'))]
+        ok = ok and now == [1] and ttl == [-1] and rem == [1]
+    ctx.check(ok, 'RedisCache.load_tile_metadata:written-time', 'tile.timestamp = now - ttl + remaining', fn,
+              fail='RedisCache.load_tile_metadata does not compute now - ttl + remaining: the tile looks older (or younger) than it is by '
+                   'twice the remaining time to live')
+
+
+@rule('C13.m', floor=1)
+def c13m(ctx):
+    """shared rule C12.l, re-evaluated for this property: `refresh_all` is decided for each cache of a seed entry, it is not stored on
+    the entry while its tasks are built (a cache with time stamps that follows one without would be fetched again completely)"""
+    from ..engine import run_property
+    sub = run_property(ctx.repo, 'C12', ctx.tier, only={'C12.l'})
+    for e in sub.errors:
+        raise Undecided('shared rule %s: %s' % e)
+    for o in sub.obs:
+        if 'seed_tasks' not in o.construct:
+            continue
+        if o.status == 'ok':
+            ctx.ok('%s:%s' % (o.rule, o.construct), o.msg, o.where)
+        else:
+            ctx.bad('%s:%s' % (o.rule, o.construct), o.msg, o.where)
+    ctx.stats['functions'] |= sub.stats['functions']
